@@ -258,7 +258,7 @@ def plan(tier, seed):
     pl.finite = list(getattr(pl, 'finite', None) or []) + [("A6/Lean re-check of the composition lemmas L-IND", _leanc.compose_check('L-IND'))]
 
     def sweep():
-        return bounded.run_native("c16_propagation", {"max_tokens": 4 if tier == "quick" else 5,
+        return bounded.run_native("c16_propagation", {"max_tokens": 4 if tier == "quick" else 7,
                                                       "known": bounded.known_for("C16", "C16-B")})
     pl.bounded = [("C16-B/propagation vs direct boolean evaluation (cross-check of the spec val, safety net)", sweep)]
     pl.functions = ["luqum.naming.MatchingPropagator." + f for f in ("__init__", "_status_from_parent", "_propagate", "__call__")]
